@@ -10,7 +10,7 @@
 (***************************************************************************)
 EXTENDS Bits, Criteria
 
-\* ---- computed length in bits: [k |-> "val", n] | [k |-> "undef"] | [k |-> "nomatch"]
+\* ---- computed length in bits: [k |-> "val", n] | [k |-> "undef"] | [k |-> "nomatch"] | [k |-> "neg"]
 \* lenspec: [k |-> "fixed", n] | [k |-> "dyn", ref, cal, adj, slope, icpt] | [k |-> "lookup", entries]
 IntegralNonNeg(r) == r[1] >= 0 /\ r[1] % r[2] = 0
 BufLen(ls, env, forStr) ==
@@ -21,7 +21,8 @@ BufLen(ls, env, forStr) ==
                  IF ~IsNum(v) THEN [k |-> "undef"]
                  ELSE LET x == RatOf(v)
                           y == IF ls.adj THEN <<ls.slope * x[1] + ls.icpt * x[2], x[2]>> ELSE x
-                      IN IF IntegralNonNeg(y) THEN [k |-> "val", n |-> y[1] \div y[2]] ELSE [k |-> "undef"]
+                      IN IF IntegralNonNeg(y) THEN [k |-> "val", n |-> y[1] \div y[2]]
+                         ELSE IF y[1] < 0 /\ (0 - y[1]) % y[2] = 0 THEN [k |-> "neg"] ELSE [k |-> "undef"]
       [] ls.k = "lookup" ->
             LET r == Lookup(ls.entries, env, [t |-> "none"])
             IN IF r.k = "val" THEN [k |-> "val", n |-> r.n]
@@ -60,9 +61,9 @@ StrDecode(pkt, pos, n, delim) ==
                                   raw |-> raw, adv |-> n]
 
 \* enc: [k |-> "bin"|"str", len |-> lenspec, delim]
-Decode(enc, env, pkt, pos) ==
+SBDecode(enc, env, pkt, pos) ==
     LET L == BufLen(enc.len, env, enc.k = "str") IN
-    IF L.k = "undef" THEN [k |-> "undef"]
+    IF L.k \in {"undef", "neg"} THEN [k |-> "undef"]       \* negative lengths: property C14 (Decode.tla)
     ELSE IF L.k = "nomatch" THEN [k |-> "err", kind |-> "len"]
     ELSE IF enc.k = "bin" THEN BinDecode(pkt, pos, L.n)
     ELSE IF L.n = 0 THEN [k |-> "undef"]                     \* zero-length strings: outside the claimed domain
